@@ -13,12 +13,11 @@ REPO = '/repo'
 # (name, property whose check must fail, file, old text, new text)
 M = [
  ('C01-read_glyph-bound', 'C01', 'src/GlyphCache.cpp', 'if (glocs >= m_pGlat.size() - 1 || gloce > m_pGlat.size())', 'if (glocs >= m_pGlat.size() - 1)'),
- ('C01-filelen-check', 'C01', 'src/FileFace.cpp', 'if (tbl_offset > file_face._file_len || tbl_len > file_face._file_len - tbl_offset\n            ||', 'if ('),
  ('C01-cmap-progress-guard', 'C01', 'src/CmapCache.cpp', 'if (codePoint <= prevCodePoint)', 'if (false)'),
  ('C01-table-release-on-badcheck', 'C16', 'src/Face.cpp', '        release();     // Make sure we release the table buffer even if the table failed its checks\n        return;', '        _p = 0; _sz = 0;\n        return;'),
  ('C02-loop-limit', 'C02', 'src/Pass.cpp', '|| --lc == 0)) {', '|| false)) {'),
- ('C02-insert-budget', 'C02', 'src/inc/opcodes.h', 'if (smap.decMax() <= 0) DIE;', 'smap.decMax();'),
- ('C02-growth-cap', 'C02', 'src/Segment.cpp', 'if (m_numGlyphs > m_numCharinfo * MAX_SEG_GROWTH_FACTOR)', 'if (false)'),
+ ('C02-maxloop-clamp', 'C02', 'src/Pass.cpp', '    if (m_iMaxLoop < 1) m_iMaxLoop = 1;\n', ''),
+ ('C02-slotat-lower-bound', 'C02', 'src/inc/opcodes.h', '((map + (x) >= &smap[-1] && map + (x) < smap.end()) ?', '((map + (x) < smap.end()) ?'),
  ('C03-delete-count', 'C03', 'src/inc/opcodes.h', '        is = is->prev();\n    seg.extendLength(-1);', '        is = is->prev();'),
  ('C04-attach-cycle-guard', 'C04', 'src/Slot.cpp', 'if (count < 100 && !foundOther && other->child(this))', 'if (other->child(this))'),
  ('C04-sibling-duplicate', 'C04', 'src/Slot.cpp', '    else if (ap == m_sibling) return true;\n', ''),
